@@ -13,7 +13,20 @@ Fixpoint hexs (l : bytes) : string :=
   | [] => EmptyString
   | c :: r => String (hexd (Z.shiftr c 4)) (String (hexd (Z.land c 15)) (hexs r))
   end.
-Definition jpack (l : bytes) : jv := JC (String "x" (hexs l)) [].
+(* in chunks of 256 bytes: Coq's printer overflows its stack on very long strings *)
+Fixpoint hexc (l : bytes) (k : nat) : string * list string :=
+  match l with
+  | [] => (EmptyString, [])
+  | c :: r =>
+    let h := hexd (Z.shiftr c 4) in
+    let o := hexd (Z.land c 15) in
+    match k with
+    | O => let '(s, cs) := hexc r 255 in (String h (String o EmptyString), s :: cs)
+    | S k' => let '(s, cs) := hexc r k' in (String h (String o s), cs)
+    end
+  end.
+Definition jpack (l : bytes) : jv :=
+  let '(s, cs) := hexc l 255 in JC "X" (map (fun s => JC (String "x" s) []) (s :: cs)).
 Definition jv_sums (s : sums) : jv := let '(a, b, c) := s in JL [jz a; jz b; jz c].
 Definition jv_row (r : maprow) : jv := JL [JB (w_addr r); JB (w_perms r); JB (w_path r); jv_zs (w_nums r)].
 Definition jv_rows (rs : list maprow) : jv := JL (map jv_row rs).
